@@ -81,6 +81,30 @@ def r1(F, rep):
         rep.add("C17-R1", "revert|%s" % var, g.loc(rest[0]) if rest else g.loc(), "%s is restored from %s under step_relative() == prev_timestep: %s" % (
             var, prev, "yes" if ok else ("restored %d time(s), not under that test" % len(rest))), ok,
             detail="re-running a step would integrate %s twice" % var, func=g.q)
+    # the revert depends on nothing but the repeated-step test (and the jump test that chooses between the two resets)
+    from .rules_c03 import structural_guards
+    for w in [x for x, op in writes_to(g, "x_ext") if rhs_of(x) is not None and X.key(rhs_of(x), g) == "this.prev_x_ext"]:
+        foreign = []
+        sg = structural_guards(g, w)
+        for i, (cn, pol) in enumerate(sg):
+            k = X.re_strip(X.key(cn, g, res))
+            if "prev_timestep" in k or "f_cv_extended_Lagrangian" in k:
+                continue
+            if i == 0:
+                # innermost test: it must choose between re-initialising to the current value and restoring
+                st = None
+                for a in g.ancestors(w):
+                    if a["k"] == "IfStmt":
+                        st = a
+                        break
+                other = [x for x, op in writes_to(g, "x_ext") if st is not None and any(y is st for y in g.ancestors(x)) and x is not w]
+                if other and all(rhs_of(x) is not None and X.key(rhs_of(x), g) == "this.x" for x in other):
+                    continue
+            foreign.append("%s is %s" % (k[:80], pol))
+        rep.add("C17-R1", "revert|independent", g.loc(w), "the restore of x_ext depends only on the repeated-step test%s" % (
+            "" if not foreign else "; it ALSO requires: " + "; ".join(foreign)), not foreign,
+            detail="a step repeated right after a restart (or any step on which the other condition holds) re-initialises or keeps the "
+                   "integrated coordinate instead of reverting it", func=g.q)
     # both restored in the same branch
     rx = [w for w, op in writes_to(g, "x_ext") if rhs_of(w) is not None and X.key(rhs_of(w), g) == "this.prev_x_ext"]
     rv = [w for w, op in writes_to(g, "v_ext") if rhs_of(w) is not None and X.key(rhs_of(w), g) == "this.prev_v_ext"]
